@@ -370,6 +370,7 @@ def install(itp):
     np_.isinf = lambda x: x if isinstance(x, AArr) else False
     old_asc = np_.ascontiguousarray
     np_.ascontiguousarray = lambda x, dtype=None: x if isinstance(x, AArr) else old_asc(x, dtype)
+    old_isclose = np_.isclose
     def isclose(x, y, **kw):
         if isinstance(x, AArr):
             cnt = fresh_int('cnt', 0, None, itp)
@@ -378,7 +379,7 @@ def install(itp):
                 n = n * d
             itp.path.conds.append(compare('<=', cnt, n))
             return AArr(x.shape, ('isclose', x.term, T(y)), 'bool', count=cnt)
-        raise CheckerError('numpy.isclose on scalars needs a contract')
+        return old_isclose(x, y, **kw)
     np_.isclose = isclose
     np_.unique = lambda x: AArr((fresh_int('nuniq', 0, None, itp),), ('unique', x.term), x.kind)
     old_abs = np_.abs
